@@ -8,6 +8,7 @@ from .c03 import read_maps
 
 class C14(Prop):
     id = "C14"
+    suite_family = ('c14', ('postselect',))
     trace_module = "TraceCircuit"
     trace_cfg = "TraceC14.cfg"
     backends = ("py",)
